@@ -5,7 +5,7 @@ import Mathlib.Tactic.Linarith
 import Mathlib.Tactic.NormNum
 import Mathlib.Tactic.SplitIfs
 /-!
-# Reusable lemmas about `setExponent`, `roundX` and the rounding oracle
+# Reusable lemmas about `setExponent`, `roundXFin` and the rounding oracle
 -/
 namespace Apd
 open Apd Apd.Oracle Cond
@@ -327,9 +327,9 @@ theorem sign_ne_zero (x : Dec) (hx : x.form = .finite) : (x.sign != 0) = (x.coef
 /-- non-zero operand below `emin`: straight to `setExponent` with Subnormal raised -/
 theorem roundX_subnormal (c : Ctx) (x : Dec) (b : Bool) (hx : x.form = .finite) (hp : 1 ≤ c.prec)
     (hn : x.coeff ≠ 0) (hadj : x.exp + (ndigits x.coeff : Int) - 1 < c.emin) :
-    roundX c x b =
+    roundXFin c x b =
       ((setExponent c x cSubnormal [x.exp]).1, cSubnormal ||| (setExponent c x cSubnormal [x.exp]).2) := by
-  unfold roundX
+  unfold roundXFin
   have h0 : (c.prec == 0) = false := by simp; omega
   simp only [h0, Bool.and_false, sign_ne_zero x hx]
   simp [hn, hadj]
@@ -338,8 +338,8 @@ theorem roundX_subnormal (c : Ctx) (x : Dec) (b : Bool) (hx : x.form = .finite) 
 theorem roundX_short (c : Ctx) (x : Dec) (b : Bool) (hx : x.form = .finite) (hp : 1 ≤ c.prec)
     (hnd : ndigits x.coeff ≤ c.prec)
     (hadj : x.coeff = 0 ∨ c.emin ≤ x.exp + (ndigits x.coeff : Int) - 1) :
-    roundX c x b = setExponent c x {} [x.exp, 0] := by
-  unfold roundX
+    roundXFin c x b = setExponent c x {} [x.exp, 0] := by
+  unfold roundXFin
   have h0 : (c.prec == 0) = false := by simp; omega
   simp only [h0, Bool.and_false, sign_ne_zero x hx]
   have h1 : (x.coeff != 0 && decide (x.exp + (ndigits x.coeff : Int) - 1 < c.emin)) = false := by
@@ -355,7 +355,7 @@ theorem roundX_short (c : Ctx) (x : Dec) (b : Bool) (hx : x.form = .finite) (hp 
 theorem roundX_long (c : Ctx) (x : Dec) (b : Bool) (hx : x.form = .finite) (hp : 1 ≤ c.prec)
     (hnd : c.prec < ndigits x.coeff) (hd : (ndigits x.coeff : Int) - (c.prec : Int) ≤ 100000)
     (hadj : c.emin ≤ x.exp + (ndigits x.coeff : Int) - 1) :
-    roundX c x b =
+    roundXFin c x b =
       (let diff : Int := (ndigits x.coeff : Int) - (c.prec : Int)
        let e := 10 ^ diff.toNat
        let y := x.coeff / e
@@ -364,7 +364,7 @@ theorem roundX_long (c : Ctx) (x : Dec) (b : Bool) (hx : x.form = .finite) (hp :
        let yd := if m != 0 && shouldAddOne c.mode y x.neg (cmpNat (2 * m) e) then roundAddOne y diff else (y, diff)
        let r := setExponent c { x with coeff := yd.1 } res [x.exp, yd.2]
        (r.1, res ||| r.2)) := by
-  unfold roundX
+  unfold roundXFin
   have h0 : (c.prec == 0) = false := by simp; omega
   simp only [h0, Bool.and_false, sign_ne_zero x hx]
   have h1 : (x.coeff != 0 && decide (x.exp + (ndigits x.coeff : Int) - 1 < c.emin)) = false := by
@@ -378,8 +378,8 @@ theorem roundX_long (c : Ctx) (x : Dec) (b : Bool) (hx : x.form = .finite) (hp :
 theorem roundX_long_sys (c : Ctx) (x : Dec) (b : Bool) (hx : x.form = .finite) (hp : 1 ≤ c.prec)
     (hd : (ndigits x.coeff : Int) - (c.prec : Int) > 100000)
     (hadj : c.emin ≤ x.exp + (ndigits x.coeff : Int) - 1) :
-    (roundX c x b).2.sysOverflow = true := by
-  unfold roundX
+    (roundXFin c x b).2.sysOverflow = true := by
+  unfold roundXFin
   have h0 : (c.prec == 0) = false := by simp; omega
   simp only [h0, Bool.and_false, sign_ne_zero x hx]
   have h1 : (x.coeff != 0 && decide (x.exp + (ndigits x.coeff : Int) - 1 < c.emin)) = false := by
@@ -395,7 +395,7 @@ theorem roundX_long_sys (c : Ctx) (x : Dec) (b : Bool) (hx : x.form = .finite) (
 theorem roundX_id (c : Ctx) (x : Dec) (b : Bool) (hx : x.form = .finite) (hp : 1 ≤ c.prec)
     (hnd : ndigits x.coeff ≤ c.prec) (hemin : -100000 ≤ c.emin) (hemax : c.emax ≤ 100000)
     (hlo : c.emin ≤ x.exp + (ndigits x.coeff : Int) - 1) (hhi : x.exp + (ndigits x.coeff : Int) - 1 ≤ c.emax)
-    (he1 : -100000 ≤ x.exp) : roundX c x b = (x, {}) := by
+    (he1 : -100000 ≤ x.exp) : roundXFin c x b = (x, {}) := by
   have hnp := ndigits_pos x.coeff
   rw [roundX_short c x b hx hp hnd (Or.inr hlo)]
   have hck : checkXs [x.exp, 0] = none := by
@@ -411,7 +411,7 @@ theorem roundX_subnormal_id (c : Ctx) (x : Dec) (b : Bool) (hx : x.form = .finit
     (hn : x.coeff ≠ 0) (hemin : c.emin ≤ 100000)
     (hadj : x.exp + (ndigits x.coeff : Int) - 1 < c.emin) (ha1 : -100000 ≤ x.exp + (ndigits x.coeff : Int) - 1)
     (he : c.etiny ≤ x.exp) (he1 : -100000 ≤ x.exp) (he2 : x.exp ≤ 100000) :
-    roundX c x b = (x, cSubnormal) := by
+    roundXFin c x b = (x, cSubnormal) := by
   have hnp := ndigits_pos x.coeff
   rw [roundX_subnormal c x b hx hp hn hadj]
   have hck : checkXs [x.exp] = none := by
